@@ -149,6 +149,12 @@ def generate(tier, seed, ctx):
             rec = {'op': 'tlb', 'type': ty, 'flat': case['flat']}
             try:
                 s = tlbkit.tree_to_cell(case['enc']).begin_parse()
+                if len(out) % 5 == 0:
+                    # an earlier parse of the same cell whose result the caller took apart
+                    try:
+                        tlbkit.scramble_object(CLS[ty].deserialize(tlbkit.tree_to_cell(case['enc']).begin_parse()))
+                    except Exception:
+                        pass
                 obj = CLS[ty].deserialize(s)
                 rec['rem'] = {'bits': s.remaining_bits, 'refs': s.remaining_refs}
                 if ty == 'Message' and any(l['k'] == 'Cell' and l['path'] == ['body'] for l in case['flat']):
